@@ -16,9 +16,15 @@ F_INT64 = "D_C07_ValueIndexInt64Resort"
 DEV_OF = {F_STALE: "StaleAfterUpdate", F_INT64: "ValueIndexInt64Resort"}
 
 VTYPES = ["int8", "int16", "int32", "int64", "uint8", "uint16", "uint32", "uint64", "float32", "float64", "string"]
+ALLVT = VTYPES + ["msgpack"]      # msgpack: ByteArray {"n": v} - the only type PatchTreasures / PatchExpiredTreasures accept
 KINDS = ["key", "created", "updated", "expire", "value"]
 TIMEKINDS = ("created", "updated", "expire")
-NKEYS, NT, NV = 6, 8, 5        # palettes of the driver: key ids 1..6, time ranks 1..8 (records use 1..6), value ranks 1..5
+NKEYS, NT, NV = 6, 8, 5        # palettes of the driver: key ids 1..6, time ranks 1..8 (7, 8 lie in the future), value ranks 1..5
+EXPIRED = range(1, 7)          # time ranks that are in the past: such an expireAt makes the record "expired"
+
+
+def kinds_for(vt):
+    return [k for k in KINDS if not (k == "value" and vt == "msgpack")]
 
 
 def mc_cfg(kinds, dev, dom, vts, maxfrom=3, maxlimit=3, maxt=3, inv="TypeOK ReadsCorrect SlicesSorted"):
@@ -60,8 +66,19 @@ def both(q):
     return [a, b]
 
 
+def every_index(vt, rng=None):
+    """a full read of every index type in BOTH orders (the ASC and the DESC index are separate objects)"""
+    qs = []
+    for i, kind in enumerate(kinds_for(vt)):
+        for j, ord_ in enumerate(("asc", "desc")):
+            via = rng.choice(["unary", "stream"]) if rng else ("unary" if (i + j) % 2 == 0 else "stream")
+            qs.append(Q(kind, ord_, via=via))
+    return qs
+
+
 def witnesses():
-    """Minimal histories of the known deviations (the TLC counterexamples of the as-built spec) plus their repaired twins."""
+    """Minimal histories of the known deviations (the TLC counterexamples of the as-built spec) and of write paths
+    that must leave every index intact."""
     hs = []
     allq = lambda kind: both(Q(kind, "asc")) + both(Q(kind, "desc"))
     # an update moves the sort value of a built update-time / creation-time / value index
@@ -73,6 +90,23 @@ def witnesses():
     # an insert into a built value index of any type but int64 stays unsorted
     for vt in VTYPES:
         hs.append((vt, 0, [S(1, 1, 1, 0, 2), S(2, 2, 2, 0, 3)] + allq("value") + [S(3, 3, 3, 0, 1)] + allq("value")))
+    # write paths other than Set/Delete against built indexes: patch-expired (applied, rejected, sliding the expiry),
+    # shift-expired, patch with expiry slide / clear, shift by keys, typed increment
+    base = [S(1, 1, 1, 2, 1), S(2, 2, 2, 4, 2), S(3, 3, 3, 6, 3), S(4, 4, 4, 7, 4)]
+    for mem, vt, mid in [
+            (0, "msgpack", [dict(op="patchexp", n=0, mode="reject", v=5, e=0)]),
+            (1, "msgpack", [dict(op="patchexp", n=0, mode="ok", v=5, e=0)]),
+            (0, "msgpack", [dict(op="patchexp", n=1, mode="slide", v=0, e=8)]),
+            (1, "int32", [dict(op="patchexp", n=0, mode="ok", v=5, e=0)]),
+            (0, "msgpack", [dict(op="patch", k=2, v=5, e=8), dict(op="patch", k=3, v=1, e=-1)]),
+            (1, "uint16", [dict(op="shiftexp", n=1)]),
+            (0, "float32", [dict(op="shiftkeys", ks=[2, 4])]),
+            (1, "int8", [dict(op="inc", k=3)]),
+            (0, "float64", [dict(op="inc", k=3)])]:
+        ops = list(base) + every_index(vt)
+        for w in mid:
+            ops += [w] + every_index(vt)
+        hs.append((vt, mem, ops))
     return hs
 
 
@@ -103,25 +137,30 @@ def sweep(kind, n, times):
 
 
 def rand_history(rng, kind, vt, nwrites, reads_per_write, sweep_times=None):
-    """A history that keeps hitting the index of `kind` after it was first built."""
+    """A history that keeps hitting the indexes (of `kind` above all) after they were first built, through every
+    write path that touches them.  `present` is the generator's own picture of the swamp, only used to pick
+    sensible requests (the reference content is what the driver reads back)."""
     ops, present = [], {}
     attr = {"created": "c", "updated": "u", "expire": "e", "value": "v"}.get(kind)
+    patchable = vt == "msgpack"
+    incable = vt not in ("string", "msgpack")
 
     def fresh_rec():
-        z = lambda: 0 if rng.random() < 0.2 else rng.randint(1, 6)
-        return dict(c=z(), u=z(), e=z(), v=rng.randint(1, NV))
+        z = lambda hi: 0 if rng.random() < 0.2 else rng.randint(1, hi)
+        return dict(c=z(6), u=z(6), e=z(NT), v=rng.randint(1, NV))
 
-    def reads(k=None):
+    def reads():
         n = len(present)
-        qs = [rand_query(rng, kind, n) for _ in range(reads_per_write)]
-        if rng.random() < 0.5:
-            qs += both(Q(kind, rng.choice(["asc", "desc"])))
-        if rng.random() < 0.25:
-            other = rng.choice([x for x in KINDS if x != kind])
-            qs.append(rand_query(rng, other, n))
+        qs = every_index(vt, rng)
+        qs += [rand_query(rng, kind, n) for _ in range(reads_per_write)]
+        if rng.random() < 0.3:
+            qs.append(rand_query(rng, rng.choice(kinds_for(vt)), n))
         return qs
 
-    for _ in range(rng.randint(1, 3)):
+    def expired():
+        return sorted(k for k in present if present[k]["e"] in EXPIRED)
+
+    for _ in range(rng.randint(2, 4)):
         k = rng.choice([x for x in range(1, NKEYS + 1) if x not in present])
         present[k] = fresh_rec()
         ops.append(S(k, **present[k]))
@@ -129,13 +168,23 @@ def rand_history(rng, kind, vt, nwrites, reads_per_write, sweep_times=None):
         ops += reads()                                    # first build happens early
     for i in range(nwrites):
         absent = [x for x in range(1, NKEYS + 1) if x not in present]
+        exp = expired()
+        safe = len(present) - len(exp) >= 1               # never empty the swamp (an empty swamp does not exist)
         choices = []
         if absent and len(present) < 5:
             choices += ["ins"] * 3
-        if present:
-            choices += ["upd"] * 4
-        if len(present) >= 2:                             # never empty the swamp (an empty swamp does not exist)
+        choices += ["upd"] * 4
+        if len(present) >= 2:
             choices += ["del"] * 2
+        if len(present) >= 3:
+            choices += ["shiftkeys"]
+        if exp and safe:
+            choices += ["shiftexp"] * 2
+        if exp:
+            choices += ["patchexp"] * 3
+        choices += ["patch"] * (2 if patchable else 1)
+        if incable and any(r["v"] == 3 for r in present.values()):
+            choices += ["inc"] * 2
         what = rng.choice(choices)
         if what == "ins":
             k = rng.choice(absent)
@@ -149,16 +198,60 @@ def rand_history(rng, kind, vt, nwrites, reads_per_write, sweep_times=None):
             if attr and rng.random() < 0.75 and attr not in fields:
                 fields.append(attr)
             for f in fields:
-                req[f] = rng.randint(1, NV if f == "v" else 6)
+                req[f] = rng.randint(1, NV if f == "v" else (NT if f == "e" else 6))
             ops.append(S(k, **req))
             for f in ("c", "u", "e"):
                 if req[f]:
                     old[f] = req[f]
             old["v"] = req["v"]
-        else:
+        elif what == "del":
             k = rng.choice(sorted(present))
             del present[k]
             ops.append(D(k))
+        elif what == "shiftkeys":
+            ks = rng.sample(sorted(present), rng.randint(1, len(present) - 1))
+            if rng.random() < 0.3 and absent:
+                ks.append(rng.choice(absent))                # a key that is not there is ignored
+            for k in ks:
+                present.pop(k, None)
+            ops.append(dict(op="shiftkeys", ks=ks))
+        elif what == "shiftexp":
+            es = sorted(present[k]["e"] for k in exp)
+            n = 0
+            if len(es) >= 2 and es[0] != es[1] and rng.random() < 0.5:
+                n = 1                                        # only the record that expired first
+                k0 = [k for k in exp if present[k]["e"] == es[0]][0]
+                del present[k0]
+            else:
+                for k in exp:
+                    del present[k]
+            ops.append(dict(op="shiftexp", n=n))
+        elif what == "patchexp":
+            mode = rng.choice(["ok", "reject", "slide"])
+            v, e = rng.randint(1, NV), rng.choice([1, 3, 5, 7, 8])
+            ops.append(dict(op="patchexp", n=0, mode=mode, v=v, e=e))
+            if patchable:                                    # typed values are rejected (TYPE_MISMATCH): nothing changes
+                for k in exp:
+                    if mode == "ok":
+                        present[k]["v"] = v
+                    elif mode == "slide":
+                        present[k]["e"] = e
+        elif what == "patch":
+            k = rng.choice(sorted(present) + (absent[:1] if rng.random() < 0.2 else []))
+            v, e = rng.randint(1, NV), rng.choice([0, 0, -1, 2, 6, 7])
+            if e == -1 and k in present and len(present) - len([x for x in exp if x != k]) < 1:
+                e = 0
+            ops.append(dict(op="patch", k=k, v=v, e=e))
+            if patchable and k in present:
+                present[k]["v"] = v
+                if e > 0:
+                    present[k]["e"] = e
+                elif e < 0:
+                    present[k]["e"] = 0
+        else:
+            k = rng.choice(sorted(k for k in present if present[k]["v"] == 3))
+            present[k]["v"] = 4
+            ops.append(dict(op="inc", k=k))
         ops += reads()
         if sweep_times is not None and i in (nwrites // 3, nwrites - 1):
             sw = sweep(kind, len(present), sweep_times)
@@ -170,18 +263,17 @@ def rand_history(rng, kind, vt, nwrites, reads_per_write, sweep_times=None):
 
 def gen_scripts(rng, thorough):
     hs = witnesses()
-    combos = [(k, None) for k in ("key", "created", "updated", "expire")] + [("value", vt) for vt in VTYPES]
-    rounds = 6 if thorough else 3
+    combos = [(k, None) for k in ("key", "created", "updated", "expire")] + [("value", vt) for vt in VTYPES] + \
+             [("expire", "msgpack"), ("updated", "msgpack")]
+    rounds = 6 if thorough else 2
     for rnd in range(rounds):
         for kind, vt in combos:
-            v = vt or rng.choice(VTYPES)
+            v = vt or rng.choice(ALLVT)
             st = None
-            if rnd == 0 and (thorough or kind in ("updated", "expire")):
-                st = list(range(0, NT)) if thorough else [2, 4]
-                if kind not in TIMEKINDS and not thorough:
-                    st = []
+            if rnd == 0 and (thorough or kind in ("updated", "expire")) and vt is None:
+                st = list(range(0, NT + 1)) if thorough else [2, 4, 7]
             hs.append((v, rng.randint(0, 1), rand_history(rng, kind, v, rng.randint(5, 10) if thorough else rng.randint(4, 7),
-                                                         4 if thorough else 3, st)))
+                                                         3 if thorough else 2, st)))
     script, index = [], {}
     for h, (vt, mem, ops) in enumerate(hs, start=1):
         lines = [dict(op="reset", h=h, vt=vt, mem=mem)] + ops
@@ -273,13 +365,25 @@ def run(ctx):
     sf = os.path.join(ctx.work, "script.ndjson")
     tf = os.path.join(ctx.work, "trace.ndjson")
     write_nd(sf, script)
-    ctx.run_driver(binary, ["run", sf, tf], timeout=3000)
+    try:
+        ctx.run_driver(binary, ["run", sf, tf], timeout=3000)
+    except vlib.Inconclusive as ex:
+        msg = str(ex)
+        if "panic:" in msg or "fatal error:" in msg:
+            # the server (in the driver process) died while serving a history: an observation, not a tool failure
+            done = sum(1 for _ in open(tf)) if os.path.exists(tf) else 0
+            ctx.deviation(None, "the server process died while serving the histories (after %d of %d requests): %s" % (
+                done, len(script), msg[-600:].replace("\n", " | ")), dict(kind="crash", script=script[:done + 3]))
+            return
+        raise
     lines = [json.loads(x) for x in open(tf)]
     if len(lines) != len(script):
         raise vlib.Inconclusive("driver wrote %d lines for %d requests" % (len(lines), len(script)))
     for i, ln in enumerate(lines):
-        if ln["ev"] in ("set", "del") and ln.get("err"):
-            raise vlib.Inconclusive("write request %d failed in the driver: %s" % (i + 1, ln["err"]))
+        if ln["ev"] == "write" and ln.get("err"):
+            ctx.deviation(None, "write request %d (%s) failed: %s" % (i + 1, json.dumps(script[i]), ln["err"]),
+                          dict(kind="write-error", script=script[max(0, i - 30):i + 1]))
+            return
     nreads = sum(1 for x in lines if x["ev"] == "read")
     ctx.extra["histories"] = len(index)
     ctx.extra["trace_lines"] = len(lines)
@@ -345,9 +449,9 @@ def run(ctx):
         for o in script[a:b]:
             if o["op"] == "read":
                 seen_read.add(o["kind"])
-            elif o["op"] in ("set", "del") and seen_read:
+            elif o["op"] != "reset" and seen_read:
                 maint = True
-        ctx.count_case([script[a]["vt"]] + [[o.get(k) for k in ("op", "k", "c", "u", "e", "v", "kind", "ord", "from", "limit", "hf", "ft", "ht", "tt")]
+        ctx.count_case([script[a]["vt"]] + [[o.get(k) for k in ("op", "k", "c", "u", "e", "v", "n", "mode", "ks", "kind", "ord", "from", "limit", "hf", "ft", "ht", "tt")]
                                             for o in script[a + 1:b]], nontrivial=maint)
         ctx.cov["evaluations"] -= 1
     ctx.cov["traces_validated_against_impl"] += len(index)
